@@ -701,7 +701,7 @@ func run(id, tier, onlyUnit, caseIdx string) int {
 		b, _ := json.MarshalIndent(map[string]any{"property": id, "check": v.Check, "tier": tier, "seed": seed, "case": v.Case, "kind": v.Kind, "key": v.Key, "detail": v.Detail, "replay": v.Replay}, "", " ")
 		os.WriteFile(path, b, 0o644)
 		lines = append(lines, fmt.Sprintf("VIOLATION property=%s replay=%s", id, path))
-		lines = append(lines, fmt.Sprintf("  kind=%s key=%s case=%d check=%s\n  %s", v.Kind, v.Key, v.Case, v.Check, strings.ReplaceAll(clip(v.Detail, 1500), "\n", "\n  ")))
+		lines = append(lines, fmt.Sprintf("  kind=%s key=%s case=%d check=%s\n  %s", v.Kind, v.Key, v.Case, v.Check, strings.ReplaceAll(clip(v.Detail, 900), "\n", "\n  ")))
 		exit = 1
 	}
 	// violations counted beyond kept witnesses
